@@ -31,6 +31,15 @@ static g2_t G2[4];
 static gt_t GT[4];
 static uint8_t msg[512], buf[4096], buf2[4096];
 static size_t msg_len;
+/* input bytes are handed over in a heap block that ends with the last byte of the input: a read beyond the stated
+ * length is a read beyond the block */
+static uint8_t *mx_base = NULL;
+static const uint8_t *mx(size_t n) {
+	if (mx_base == NULL) mx_base = (uint8_t *)sim_sys_malloc(sizeof(msg));
+	if (n > sizeof(msg)) n = sizeof(msg);
+	memcpy(mx_base + sizeof(msg) - n, msg, n);
+	return mx_base + sizeof(msg) - n;
+}
 static int has_pc = 0;
 static int cur_curve = -1;
 static char size_cls[16];
@@ -205,7 +214,7 @@ static void setup_inputs(void) {
 	}
 	memset(msg, 0, sizeof(msg));
 	msg_len = 1 + (B[5]->dp[0] % 200);
-	rand_bytes(msg, msg_len);
+	rand_bytes(mx(msg_len), msg_len);
 	bn_free(n);
 }
 
@@ -614,9 +623,9 @@ OP(ep_mul_sim_dig) {
 	out_ep(PR[0]);
 	for (int i = 0; i < NMAX; i++) { ep_free(p[i]); }
 }
-OP(ep_map) { W(ep_map(PR[0], msg, msg_len)); out_ep(PR[0]); }
-OP(ep_map_basic) { W(ep_map_basic(PR[0], msg, msg_len)); out_ep(PR[0]); }
-OP(ep_map_swift) { W(ep_map_swift(PR[0], msg, msg_len)); out_ep(PR[0]); }
+OP(ep_map) { W(ep_map(PR[0], mx(msg_len), msg_len)); out_ep(PR[0]); }
+OP(ep_map_basic) { W(ep_map_basic(PR[0], mx(msg_len), msg_len)); out_ep(PR[0]); }
+OP(ep_map_swift) { W(ep_map_swift(PR[0], mx(msg_len), msg_len)); out_ep(PR[0]); }
 OP(ep_pck_upk) { int r = 0; W(ep_pck(PR[1], P[0]); r = ep_upk(PR[0], PR[1])); out_int(r); out_ep(PR[0]); }
 OP(ep_write_bin) {
 	size_t l = 0;
@@ -646,13 +655,13 @@ OP(ep_tab) {
 OP(md_kdf) {
 	size_t kl = 1 + (size_t)(B[5]->dp[0] >> 8) % 200;
 	uint8_t *o = (uint8_t *)sim_sys_malloc(kl);
-	W(md_kdf(o, kl, msg, msg_len)); out_bytes(o, kl);
+	W(md_kdf(o, kl, mx(msg_len), msg_len)); out_bytes(o, kl);
 	sim_sys_free(o);
 }
 OP(md_mgf) {
 	size_t kl = 1 + (size_t)(B[5]->dp[0] >> 8) % 200;
 	uint8_t *o = (uint8_t *)sim_sys_malloc(kl);
-	W(md_mgf(o, kl, msg, msg_len)); out_bytes(o, kl);
+	W(md_mgf(o, kl, mx(msg_len), msg_len)); out_bytes(o, kl);
 	sim_sys_free(o);
 }
 /* key lengths around the hash block size (a longer key is hashed first); key, message and tag in heap blocks of
@@ -669,7 +678,7 @@ OP(md_hmac) {
 OP(md_xmd) {
 	size_t kl = 1 + (size_t)(B[5]->dp[0] >> 8) % 200;
 	uint8_t *o = (uint8_t *)sim_sys_malloc(kl);
-	W(md_xmd(o, (int)kl, msg, (int)msg_len, (const uint8_t *)"DST", 3)); out_bytes(o, kl);
+	W(md_xmd(o, (int)kl, mx(msg_len), (int)msg_len, (const uint8_t *)"DST", 3)); out_bytes(o, kl);
 	sim_sys_free(o);
 }
 OP(bc_aes_cbc) {
@@ -677,7 +686,7 @@ OP(bc_aes_cbc) {
 	int r = 0, r2 = 0;
 	uint8_t key[16], iv[16];
 	memset(key, 7, 16); memset(iv, 9, 16);
-	W(r = bc_aes_cbc_enc(buf, &ol, msg, msg_len, key, 16, iv); if (r == RLC_OK) r2 = bc_aes_cbc_dec(buf2, &ol2, buf, ol, key, 16, iv));
+	W(r = bc_aes_cbc_enc(buf, &ol, mx(msg_len), msg_len, key, 16, iv); if (r == RLC_OK) r2 = bc_aes_cbc_dec(buf2, &ol2, buf, ol, key, 16, iv));
 	out_int(r); out_int(r2);
 	if (r == RLC_OK && r2 == RLC_OK) out_bytes(buf2, ol2);
 }
@@ -708,49 +717,49 @@ static void cap_note(const char *what, size_t need, int ok, int same) { cap_note
 OP(cap_aes_enc) {
 	uint8_t key[16], iv[16]; int detcmp = 1;
 	memset(key, 7, 16); memset(iv, 9, 16);
-	CAPRUN("bc_aes_cbc_enc", need, W(r = bc_aes_cbc_enc(buf, &ol, msg, msg_len, key, 16, iv)), W(r = bc_aes_cbc_enc(o, &ol, msg, msg_len, key, 16, iv)));
+	CAPRUN("bc_aes_cbc_enc", need, W(r = bc_aes_cbc_enc(buf, &ol, mx(msg_len), msg_len, key, 16, iv)), W(r = bc_aes_cbc_enc(o, &ol, mx(msg_len), msg_len, key, 16, iv)));
 }
 OP(cap_aes_dec) {
 	uint8_t key[16], iv[16]; int detcmp = 1;
 	size_t cl = sizeof(buf2);
 	memset(key, 7, 16); memset(iv, 9, 16);
-	if (bc_aes_cbc_enc(buf2, &cl, msg, msg_len, key, 16, iv) != RLC_OK) { out_int(-2); return; }
+	if (bc_aes_cbc_enc(buf2, &cl, mx(msg_len), msg_len, key, 16, iv) != RLC_OK) { out_int(-2); return; }
 	CAPRUN("bc_aes_cbc_dec", need, W(r = bc_aes_cbc_dec(buf, &ol, buf2, cl, key, 16, iv)), W(r = bc_aes_cbc_dec(o, &ol, buf2, cl, key, 16, iv)));
 }
 OP(cap_rsa_enc) {
 	int detcmp = 0;
 	size_t ml = 1 + msg_len % 40;
-	CAPRUN("cp_rsa_enc", need, W(r = cp_rsa_enc(buf, &ol, msg, ml, rsa_pub)), W(r = cp_rsa_enc(o, &ol, msg, ml, rsa_pub)));
+	CAPRUN("cp_rsa_enc", need, W(r = cp_rsa_enc(buf, &ol, mx(ml), ml, rsa_pub)), W(r = cp_rsa_enc(o, &ol, mx(ml), ml, rsa_pub)));
 }
 OP(cap_rsa_dec) {
 	int detcmp = 1;
 	size_t ml = 1 + msg_len % 40, cl = sizeof(buf2);
-	if (cp_rsa_enc(buf2, &cl, msg, ml, rsa_pub) != RLC_OK) { out_int(-2); return; }
+	if (cp_rsa_enc(buf2, &cl, mx(ml), ml, rsa_pub) != RLC_OK) { out_int(-2); return; }
 	CAPRUN("cp_rsa_dec", need, W(r = cp_rsa_dec(buf, &ol, buf2, cl, rsa_prv)), W(r = cp_rsa_dec(o, &ol, buf2, cl, rsa_prv)));
 }
 OP(cap_rsa_sig) {
 	int detcmp = 1;
-	CAPRUN("cp_rsa_sig", need, W(r = cp_rsa_sig(buf, &ol, msg, msg_len, 0, rsa_prv)), W(r = cp_rsa_sig(o, &ol, msg, msg_len, 0, rsa_prv)));
+	CAPRUN("cp_rsa_sig", need, W(r = cp_rsa_sig(buf, &ol, mx(msg_len), msg_len, 0, rsa_prv)), W(r = cp_rsa_sig(o, &ol, mx(msg_len), msg_len, 0, rsa_prv)));
 }
 OP(cap_ecies_enc) {
 	int detcmp = 0;
-	CAPRUN("cp_ecies_enc", need, W(r = cp_ecies_enc(PR[0], buf, &ol, msg, msg_len, ec_q)), W(r = cp_ecies_enc(PR[1], o, &ol, msg, msg_len, ec_q)));
+	CAPRUN("cp_ecies_enc", need, W(r = cp_ecies_enc(PR[0], buf, &ol, mx(msg_len), msg_len, ec_q)), W(r = cp_ecies_enc(PR[1], o, &ol, mx(msg_len), msg_len, ec_q)));
 }
 OP(cap_ecies_dec) {
 	int detcmp = 1;
 	size_t cl = sizeof(buf2);
-	if (cp_ecies_enc(PR[0], buf2, &cl, msg, msg_len, ec_q) != RLC_OK) { out_int(-2); return; }
+	if (cp_ecies_enc(PR[0], buf2, &cl, mx(msg_len), msg_len, ec_q) != RLC_OK) { out_int(-2); return; }
 	CAPRUN("cp_ecies_dec", need, W(r = cp_ecies_dec(buf, &ol, PR[0], buf2, cl, ec_d)), W(r = cp_ecies_dec(o, &ol, PR[0], buf2, cl, ec_d)));
 }
 OP(cap_rabin_enc) {
 	int detcmp = 0;
 	size_t ml = 1 + msg_len % 24;
-	CAPRUN("cp_rabin_enc", need, W(r = cp_rabin_enc(buf, &ol, msg, ml, rab_pub)), W(r = cp_rabin_enc(o, &ol, msg, ml, rab_pub)));
+	CAPRUN("cp_rabin_enc", need, W(r = cp_rabin_enc(buf, &ol, mx(ml), ml, rab_pub)), W(r = cp_rabin_enc(o, &ol, mx(ml), ml, rab_pub)));
 }
 OP(cap_rabin_dec) {
 	int detcmp = 1;
 	size_t ml = 1 + msg_len % 24, cl = sizeof(buf2);
-	if (cp_rabin_enc(buf2, &cl, msg, ml, rab_pub) != RLC_OK) { out_int(-2); return; }
+	if (cp_rabin_enc(buf2, &cl, mx(ml), ml, rab_pub) != RLC_OK) { out_int(-2); return; }
 	CAPRUN("cp_rabin_dec", need, W(r = cp_rabin_dec(buf, &ol, buf2, cl, rab_prv)), W(r = cp_rabin_dec(o, &ol, buf2, cl, rab_prv)));
 }
 OP(cap_bdpe_enc) {
@@ -762,13 +771,13 @@ OP(cap_ibe_enc) {
 	int detcmp = 0;
 	size_t ml = 1 + msg_len % 32;
 	if (cp_ibe_gen(R[5], G1[3]) != RLC_OK) { out_int(-2); return; }
-	CAPRUN("cp_ibe_enc", need, W(r = cp_ibe_enc(buf, &ol, msg, ml, "carol", G1[3])), W(r = cp_ibe_enc(o, &ol, msg, ml, "carol", G1[3])));
+	CAPRUN("cp_ibe_enc", need, W(r = cp_ibe_enc(buf, &ol, mx(ml), ml, "carol", G1[3])), W(r = cp_ibe_enc(o, &ol, mx(ml), ml, "carol", G1[3])));
 }
 OP(cap_ibe_dec) {
 	int detcmp = 1;
 	size_t ml = 1 + msg_len % 32, cl = sizeof(buf2);
 	if (cp_ibe_gen(R[5], G1[3]) != RLC_OK || cp_ibe_gen_prv(G2[3], "carol", R[5]) != RLC_OK) { out_int(-2); return; }
-	if (cp_ibe_enc(buf2, &cl, msg, ml, "carol", G1[3]) != RLC_OK) { out_int(-3); return; }
+	if (cp_ibe_enc(buf2, &cl, mx(ml), ml, "carol", G1[3]) != RLC_OK) { out_int(-3); return; }
 	CAPRUN("cp_ibe_dec", need, W(r = cp_ibe_dec(buf, &ol, buf2, cl, G2[3])), W(r = cp_ibe_dec(o, &ol, buf2, cl, G2[3])));
 }
 /* recodings: the length-in/length-out parameter counts one-byte elements.  The block handed to the second call ends
@@ -828,7 +837,7 @@ OP(cap_rec_rtnaf) {
 	}
 	CAPREC("bn_rec_rtnaf", ol, W(bn_rec_rtnaf((int8_t *)o, &ol, R[1], u, m, w)));
 }
-OP(rand_reseed) { W(rand_seed(msg, msg_len); rand_bytes(buf, 40)); out_bytes(buf, 40); }
+OP(rand_reseed) { W(rand_seed(mx(msg_len), msg_len); rand_bytes(buf, 40)); out_bytes(buf, 40); }
 
 /* ---- mpc ---- */
 OP(mpc_sss) {
@@ -872,14 +881,14 @@ OP(cp_rsa_enc_dec) {
 	size_t ol = sizeof(buf), ol2 = sizeof(buf2);
 	int r = 0, r2 = 0;
 	size_t ml = msg_len % 40;
-	W(r = cp_rsa_enc(buf, &ol, msg, ml, rsa_pub); if (r == RLC_OK) r2 = cp_rsa_dec(buf2, &ol2, buf, ol, rsa_prv));
+	W(r = cp_rsa_enc(buf, &ol, mx(ml), ml, rsa_pub); if (r == RLC_OK) r2 = cp_rsa_dec(buf2, &ol2, buf, ol, rsa_prv));
 	out_int(r); out_int(r2);
 	if (r == RLC_OK && r2 == RLC_OK) out_bytes(buf2, ol2);
 }
 OP(cp_rsa_sig_ver) {
 	size_t ol = sizeof(buf);
 	int r = 0, r2 = 0;
-	W(r = cp_rsa_sig(buf, &ol, msg, msg_len, 0, rsa_prv); if (r == RLC_OK) r2 = cp_rsa_ver(buf, ol, msg, msg_len, 0, rsa_pub));
+	W(r = cp_rsa_sig(buf, &ol, mx(msg_len), msg_len, 0, rsa_prv); if (r == RLC_OK) r2 = cp_rsa_ver(buf, ol, mx(msg_len), msg_len, 0, rsa_pub));
 	out_int(r); out_int(r2);
 }
 OP(cp_rsa_gen_small) {
@@ -901,7 +910,7 @@ OP(cp_phpe) {
 }
 OP(cp_ecdsa) {
 	int r = 0, v = 0;
-	W(r = cp_ecdsa_sig(R[0], R[1], msg, msg_len, 0, ec_d); if (r == RLC_OK) v = cp_ecdsa_ver(R[0], R[1], msg, msg_len, 0, ec_q));
+	W(r = cp_ecdsa_sig(R[0], R[1], mx(msg_len), msg_len, 0, ec_d); if (r == RLC_OK) v = cp_ecdsa_ver(R[0], R[1], mx(msg_len), msg_len, 0, ec_q));
 	out_int(r); out_int(v);
 }
 OP(cp_ecdsa_gen) {
@@ -914,7 +923,7 @@ OP(cp_ecdsa_gen) {
 }
 OP(cp_ecss) {
 	int r = 0, v = 0;
-	W(r = cp_ecss_sig(R[0], R[1], msg, msg_len, ec_d); if (r == RLC_OK) v = cp_ecss_ver(R[0], R[1], msg, msg_len, ec_q));
+	W(r = cp_ecss_sig(R[0], R[1], mx(msg_len), msg_len, ec_d); if (r == RLC_OK) v = cp_ecss_ver(R[0], R[1], mx(msg_len), msg_len, ec_q));
 	out_int(r); out_int(v);
 }
 OP(cp_ecdh) {
@@ -932,7 +941,7 @@ OP(cp_ecmqv) {
 OP(cp_ecies) {
 	size_t ol = sizeof(buf), ol2 = sizeof(buf2);
 	int r = 0, r2 = 0;
-	W(r = cp_ecies_enc(PR[0], buf, &ol, msg, msg_len, ec_q); if (r == RLC_OK) r2 = cp_ecies_dec(buf2, &ol2, PR[0], buf, ol, ec_d));
+	W(r = cp_ecies_enc(PR[0], buf, &ol, mx(msg_len), msg_len, ec_q); if (r == RLC_OK) r2 = cp_ecies_dec(buf2, &ol2, PR[0], buf, ol, ec_d));
 	out_int(r); out_int(r2);
 	if (r == RLC_OK && r2 == RLC_OK) out_bytes(buf2, ol2);
 }
@@ -944,8 +953,8 @@ OP(cp_vbnn) {
 	bn_new(sk); bn_new(z); bn_new(h); ec_new(pk); ec_new(r); ec_new(mpk);
 	ec_mul_gen(mpk, ec_d);
 	W(r1 = cp_vbnn_gen_prv(sk, pk, ec_d, (const uint8_t *)"alice", 5);
-		if (r1 == RLC_OK) r2 = cp_vbnn_sig(r, z, h, (const uint8_t *)"alice", 5, msg, msg_len, sk, pk);
-		if (r2 == RLC_OK) r3 = cp_vbnn_ver(r, z, h, (const uint8_t *)"alice", 5, msg, msg_len, mpk));
+		if (r1 == RLC_OK) r2 = cp_vbnn_sig(r, z, h, (const uint8_t *)"alice", 5, mx(msg_len), msg_len, sk, pk);
+		if (r2 == RLC_OK) r3 = cp_vbnn_ver(r, z, h, (const uint8_t *)"alice", 5, mx(msg_len), msg_len, mpk));
 	out_int(r1); out_int(r2); out_int(r3);
 	bn_free(sk); bn_free(z); bn_free(h); ec_free(pk); ec_free(r); ec_free(mpk);
 }
@@ -1012,8 +1021,8 @@ OP(ep2_norm_sim) {
 	for (int i = 0; i < cnt; i++) { out_g2(TAIL(r, cnt)[i]); }
 	for (int i = 0; i < NMAX; i++) { g2_free(t[i]); g2_free(r[i]); }
 }
-OP(g1_map) { W(g1_map(G1[3], msg, msg_len)); out_ep(G1[3]); }
-OP(g2_map) { W(g2_map(G2[3], msg, msg_len)); out_g2(G2[3]); }
+OP(g1_map) { W(g1_map(G1[3], mx(msg_len), msg_len)); out_ep(G1[3]); }
+OP(g2_map) { W(g2_map(G2[3], mx(msg_len), msg_len)); out_g2(G2[3]); }
 OP(g1_is_valid) { int r = 0; W(r = g1_is_valid(G1[0])); out_int(r); }
 OP(g2_is_valid) { int r = 0; W(r = g2_is_valid(G2[0])); out_int(r); }
 OP(gt_is_valid) { int r = 0; W(r = gt_is_valid(GT[0])); out_int(r); }
@@ -1029,7 +1038,7 @@ OP(gt_write_read) {
 }
 OP(cp_bls) {
 	int r = 0, v = 0;
-	W(r = cp_bls_sig(G1[3], msg, msg_len, bls_d); if (r == RLC_OK) v = cp_bls_ver(G1[3], msg, msg_len, bls_q));
+	W(r = cp_bls_sig(G1[3], mx(msg_len), msg_len, bls_d); if (r == RLC_OK) v = cp_bls_ver(G1[3], mx(msg_len), msg_len, bls_q));
 	out_int(r); out_int(v);
 }
 OP(cp_bls_gen) {
@@ -1039,20 +1048,20 @@ OP(cp_bls_gen) {
 }
 OP(cp_bbs) {
 	int r = 0, r2 = 0, v = 0;
-	W(r = cp_bbs_gen(R[0], G2[3], GT[3]); if (r == RLC_OK) r2 = cp_bbs_sig(G1[3], msg, msg_len, 0, R[0]);
-		if (r2 == RLC_OK) v = cp_bbs_ver(G1[3], msg, msg_len, 0, G2[3], GT[3]));
+	W(r = cp_bbs_gen(R[0], G2[3], GT[3]); if (r == RLC_OK) r2 = cp_bbs_sig(G1[3], mx(msg_len), msg_len, 0, R[0]);
+		if (r2 == RLC_OK) v = cp_bbs_ver(G1[3], mx(msg_len), msg_len, 0, G2[3], GT[3]));
 	out_int(r); out_int(r2); out_int(v);
 }
 OP(cp_zss) {
 	int r = 0, r2 = 0, v = 0;
-	W(r = cp_zss_gen(R[0], G1[3], GT[3]); if (r == RLC_OK) r2 = cp_zss_sig(G2[3], msg, msg_len, 0, R[0]);
-		if (r2 == RLC_OK) v = cp_zss_ver(G2[3], msg, msg_len, 0, G1[3], GT[3]));
+	W(r = cp_zss_gen(R[0], G1[3], GT[3]); if (r == RLC_OK) r2 = cp_zss_sig(G2[3], mx(msg_len), msg_len, 0, R[0]);
+		if (r2 == RLC_OK) v = cp_zss_ver(G2[3], mx(msg_len), msg_len, 0, G1[3], GT[3]));
 	out_int(r); out_int(r2); out_int(v);
 }
 OP(cp_cls) {
 	int r = 0, r2 = 0, v = 0;
-	W(r = cp_cls_gen(R[0], R[1], G2[2], G2[3]); if (r == RLC_OK) r2 = cp_cls_sig(G1[1], G1[2], G1[3], msg, msg_len, R[0], R[1]);
-		if (r2 == RLC_OK) v = cp_cls_ver(G1[1], G1[2], G1[3], msg, msg_len, G2[2], G2[3]));
+	W(r = cp_cls_gen(R[0], R[1], G2[2], G2[3]); if (r == RLC_OK) r2 = cp_cls_sig(G1[1], G1[2], G1[3], mx(msg_len), msg_len, R[0], R[1]);
+		if (r2 == RLC_OK) v = cp_cls_ver(G1[1], G1[2], G1[3], mx(msg_len), msg_len, G2[2], G2[3]));
 	out_int(r); out_int(r2); out_int(v);
 }
 OP(cp_pss) {
@@ -1071,7 +1080,7 @@ OP(cp_ibe) {
 	int r = 0, r2 = 0, r3 = 0, r4 = 0;
 	size_t ml = msg_len % 60 + 1;
 	W(r = cp_ibe_gen(R[0], G1[3]); if (r == RLC_OK) r2 = cp_ibe_gen_prv(G2[3], "bob", R[0]);
-		if (r2 == RLC_OK) r3 = cp_ibe_enc(buf, &ol, msg, ml, "bob", G1[3]);
+		if (r2 == RLC_OK) r3 = cp_ibe_enc(buf, &ol, mx(ml), ml, "bob", G1[3]);
 		if (r3 == RLC_OK) r4 = cp_ibe_dec(buf2, &ol2, buf, ol, G2[3]));
 	out_int(r); out_int(r2); out_int(r3); out_int(r4);
 	if (r4 == RLC_OK && r3 == RLC_OK && r2 == RLC_OK && r == RLC_OK) out_bytes(buf2, ol2);
